@@ -141,7 +141,9 @@
 (hy-repr-register [hy.models.String str hy.models.Bytes bytes] (fn [x]
   (setv r (.lstrip (_base-repr x) "ub"))
   (if (is-not None (getattr x "brackets" None))
-    f"#[{x.brackets}[{x}]{x.brackets}]"
+    ; The reader drops a newline that comes right after the opening
+    ; delimiter, so a leading newline in the string needs another.
+    f"#[{x.brackets}[{(if (.startswith x "\n") "\n" "")}{x}]{x.brackets}]"
     (+
       (if (isinstance x bytes) "b" "")
       (if (.startswith "\"" r)
@@ -194,6 +196,11 @@
   (fn [fstring]
     (if (is-not None fstring.brackets)
       (+ "#[" fstring.brackets "["
+         (if (and fstring
+                  (isinstance (get fstring 0) hy.models.String)
+                  (.startswith (get fstring 0) "\n"))
+           "\n"
+           "")
          #* (lfor component fstring
                   (if (isinstance component hy.models.String)
                       (.replace (.replace (str component)
